@@ -4,67 +4,127 @@
    K request processes each run the steps of a generated handler.  The harness can hold a process at the
    points where the generated code calls something the caller injected: the decoder factory ("decode"), the
    authorization callback / the service method ("invoke"), the encoder factory ("encode").  Passing a gate
-   releases the process into the next REGION of the handler; regions of different processes overlap freely.
+   releases the process into the next REGION of the handler; a region ends when the process ARRIVES at its
+   next gate (or, after the last gate, when the reply has reached the client).  Regions of different processes
+   overlap freely in the free mode; in the serial mode the controller passes a gate only when every other
+   process sits at a gate or is done, so that whole regions are the grain of the interleaving (hold request A
+   after its decode region, run request B from start to finish, let A continue).
+
    Each region touches shared objects:
 
-     pre      client encode, mux lookup                    mux tables: read (written only while mounting)
+     pre      client encode / raw request, mux lookup      mux tables: read (written only while mounting)
      decode   body/param decoding, validation               pattern cache: read/write under its RWMutex
-     service  user code                                     (the stub: per-request state only)
-     encode   response encoder, or ErrorEncoder             ErrorEncoder's captured `formatter` variable: read
-                                                            [deviation: also WRITTEN per request when nil]
+                                                            the request decoder of the request's content type
+     service  user code: reads the decoded payload           (the stub: per-request state only)
+     encode   response encoder, or ErrorEncoder; the reply   ErrorEncoder's captured `formatter` variable: read
+              is computed from the payload (echo methods)    [deviation: also WRITTEN per request when nil]
+
+   A request is (kind, codec, body): what the handler does with it, the class of its Content-Type
+   (application/json, application/xml, application/gob, text/plain|text/html, anything else) and the kind of its
+   body (object, string, bytes, list).  The decoders and encoders of the runtime (RequestDecoder, ResponseEncoder,
+   ResponseDecoder, RequestEncoder) are created per request and keep no state between requests; the decoded
+   payload is memory of its own request.
+   [hypothetical deviation "decoder.pooled_buffer_aliased": the text decoder reads every body into ONE buffer
+    shared by all requests and a Bytes payload is a slice of that buffer - the next text body overwrites it.]
 
    A data race is two processes inside regions with conflicting accesses to one variable and no common lock
-   (no happens-before machinery needed).  Echo: a response is a function of its own request only. *)
+   (no happens-before machinery needed).  Echo (linearizability-style): the payload delivered to the handler of
+   request r is the payload of r, and the reply observed for request r is F(payload(r)) - written here as "was
+   computed from request r", request identities standing for the pairwise distinct payloads the harness sends. *)
 EXTENDS Integers, Sequences, FiniteSets, TLC
 
-CONSTANTS K, Deviations
+CONSTANTS K, Deviations,
+          KindSet, CodecSet, BodySet,   \* the part of the request space explored by one run
+          SerialSet                     \* replay modes explored: subset of BOOLEAN
 Procs == 1..K
-Kinds == {"ok", "invalid", "declared", "undeclared", "plain"}
+Kinds  == {"ok", "invalid", "declared", "undeclared", "plain"}
+Codecs == {"json", "xml", "gob", "text", "unsup"}
+Bodies == {"object", "string", "bytes", "list"}
+ASSUME KindSet \subseteq Kinds /\ CodecSet \subseteq Codecs /\ BodySet \subseteq Bodies /\ SerialSet \subseteq BOOLEAN
 Gates(kind) == IF kind = "invalid" THEN <<"decode", "encode">> ELSE <<"decode", "invoke", "encode">>
 \* the default error encoder (goahttp.ErrorEncoder) is used for everything but successes and declared errors
 UsesDefaultErrorEncoder(kind) == kind \in {"invalid", "undeclared", "plain"}
+\* the text codec carries strings and byte strings only, an unsupported content type is refused: the handler
+\* answers with a decode error whatever the request was meant to provoke
+DecodeFails(c, b) == c = "unsup" \/ (c = "text" /\ b \in {"object", "list"})
+Requests == {x \in [kind : KindSet, codec : CodecSet, body : BodySet] : DecodeFails(x.codec, x.body) => x.kind = "invalid"}
 
-VARIABLES kind,     \* [Procs -> Kinds]
+VARIABLES req,      \* [Procs -> Requests]
+          serial,   \* replay mode
           pos,      \* [Procs -> number of gates passed]
+          at,       \* [Procs -> "run" (inside a region) | "gate" (waiting) | "done"]
           hist,     \* the schedule: sequence of <<process, gate>> passes
           lastErr,  \* (only meaningful under the hypothetical deviation handler.shared_error_var)
-          resp      \* [Procs -> id of the request the response was computed from, 0 = none yet]
-vars == <<kind, pos, hist, lastErr, resp>>
+          pool,     \* (only under decoder.pooled_buffer_aliased) whose bytes the shared text buffer holds, 0 = none
+          ref,      \* [Procs -> where the decoded payload lives: "none" | "own" | "pool"]
+          seen,     \* [Procs -> id of the request whose payload the handler read, 0 = not (yet) invoked]
+          resp      \* [Procs -> id of the request the reply was computed from, 0 = none yet]
+vars == <<req, serial, pos, at, hist, lastErr, pool, ref, seen, resp>>
+kind == [p \in Procs |-> req[p].kind]
 
 Region(p) == IF pos[p] = 0 THEN "pre" ELSE
              LET g == Gates(kind[p])[pos[p]] IN
              CASE g = "decode" -> "decode" [] g = "invoke" -> "service" [] g = "encode" -> "encode"
 
+Pooled == "decoder.pooled_buffer_aliased" \in Deviations
 Acc(v, m, l) == [var |-> v, mode |-> m, lock |-> l]
 Accesses(p) ==
+  IF at[p] # "run" THEN {} ELSE
   CASE Region(p) = "pre"     -> {Acc("mux", "r", "none")}
-    [] Region(p) = "decode"  -> {Acc("patterns", "r", "patternsLock"), Acc("patterns", "w", "patternsLock")}
-    [] Region(p) = "service" -> {}
+    [] Region(p) = "decode"  -> {Acc("patterns", "r", "patternsLock"), Acc("patterns", "w", "patternsLock")} \cup
+                                (IF Pooled /\ req[p].codec = "text" THEN {Acc("textbuf", "w", "none")} ELSE {})
+    [] Region(p) = "service" -> IF ref[p] = "pool" THEN {Acc("textbuf", "r", "none")} ELSE {}
     [] Region(p) = "encode"  ->
-         IF UsesDefaultErrorEncoder(kind[p])
-         THEN {Acc("formatter", "r", "none")} \cup
-              (IF "errorencoder.formatter_assigned_per_request" \in Deviations THEN {Acc("formatter", "w", "none")} ELSE {})
-         ELSE {}
+         (IF UsesDefaultErrorEncoder(kind[p])
+          THEN {Acc("formatter", "r", "none")} \cup
+               (IF "errorencoder.formatter_assigned_per_request" \in Deviations THEN {Acc("formatter", "w", "none")} ELSE {})
+          ELSE {}) \cup
+         (IF ref[p] = "pool" /\ kind[p] = "ok" THEN {Acc("textbuf", "r", "none")} ELSE {})
 Conflict(a, b) == a.var = b.var /\ (a.mode = "w" \/ b.mode = "w") /\ (a.lock = "none" \/ a.lock # b.lock)
 
-Init == /\ kind \in [Procs -> Kinds] /\ pos = [p \in Procs |-> 0] /\ hist = <<>> /\ lastErr = 0 /\ resp = [p \in Procs |-> 0]
+\* what request p's payload reads as right now
+View(p) == IF ref[p] = "pool" THEN pool ELSE p
+
+Init == /\ req \in [Procs -> Requests] /\ serial \in SerialSet
+        /\ pos = [p \in Procs |-> 0] /\ at = [p \in Procs |-> "run"] /\ hist = <<>> /\ lastErr = 0 /\ pool = 0
+        /\ ref = [p \in Procs |-> "none"] /\ seen = [p \in Procs |-> 0] /\ resp = [p \in Procs |-> 0]
+
+\* the controller lets p through the gate it is waiting at
 Pass(p) ==
-  /\ pos[p] < Len(Gates(kind[p]))
+  /\ at[p] = "gate"
+  /\ serial => \A q \in Procs : at[q] # "run"
   /\ pos' = [pos EXCEPT ![p] = @ + 1]
+  /\ at' = [at EXCEPT ![p] = "run"]
   /\ hist' = Append(hist, <<p, Gates(kind[p])[pos[p] + 1]>>)
   /\ lastErr' = IF Gates(kind[p])[pos[p] + 1] = "encode" /\ "handler.shared_error_var" \in Deviations THEN p ELSE lastErr
-  /\ UNCHANGED <<kind, resp>>
-\* the response leaves (not gated: it happens some time after the encode gate was passed)
-Finish(p) ==
-  /\ pos[p] = Len(Gates(kind[p])) /\ resp[p] = 0
-  /\ resp' = [resp EXCEPT ![p] = IF "handler.shared_error_var" \in Deviations THEN lastErr ELSE p]
-  /\ UNCHANGED <<kind, pos, hist, lastErr>>
-Next == \E p \in Procs : Pass(p) \/ Finish(p)
+  /\ UNCHANGED <<req, serial, pool, ref, seen, resp>>
+
+\* p finishes the region it is in (its effects on the state shared with other requests, and on what p itself
+\* observes, are taken at this point) and reaches its next gate; after the last region the reply has left
+Arrive(p) ==
+  /\ at[p] = "run"
+  /\ LET r == Region(p) IN
+     /\ IF r = "decode" /\ ~DecodeFails(req[p].codec, req[p].body)
+        THEN IF Pooled /\ req[p].codec = "text"
+             THEN /\ pool' = p
+                  /\ ref' = [ref EXCEPT ![p] = IF req[p].body = "bytes" THEN "pool" ELSE "own"]
+             ELSE /\ ref' = [ref EXCEPT ![p] = "own"] /\ UNCHANGED pool
+        ELSE UNCHANGED <<pool, ref>>
+     /\ seen' = IF r = "service" THEN [seen EXCEPT ![p] = View(p)] ELSE seen
+     /\ resp' = IF r = "encode"
+                THEN [resp EXCEPT ![p] = CASE kind[p] = "ok" -> View(p)
+                                           [] "handler.shared_error_var" \in Deviations -> lastErr
+                                           [] OTHER -> p]
+                ELSE resp
+  /\ at' = [at EXCEPT ![p] = IF pos[p] < Len(Gates(kind[p])) THEN "gate" ELSE "done"]
+  /\ UNCHANGED <<req, serial, pos, hist, lastErr>>
+
+Next == \E p \in Procs : Pass(p) \/ Arrive(p)
 Spec == Init /\ [][Next]_vars /\ WF_vars(Next)
 
-AllDone == \A p \in Procs : resp[p] # 0
+AllDone == \A p \in Procs : at[p] = "done"
 \* C20
 NoConflict == \A p, q \in Procs : p # q => \A a \in Accesses(p), b \in Accesses(q) : ~Conflict(a, b)
-Echo == \A p \in Procs : resp[p] \in {0, p}
+Echo == \A p \in Procs : resp[p] \in {0, p} /\ seen[p] \in {0, p}
 Termination == <>AllDone
 ==============================================================================
